@@ -85,7 +85,7 @@ CHECKS = {
             'Exploration over histories under one or two managers (disjoint, or one below the other) with a Ping barrier after every step; folded view == model objects with current property values; with nested managers the folded view of each is compared with a fresh GetManagedObjects listing of that manager.',
             'Trusted: same-connection ordering makes the Ping reply a barrier for the signals before it. With nested managers, what each manager lists is taken from the manager itself (no model of it is imposed).', '7/C25'),
     'C26': ('program-generating PBT: random #[interface] impls compiled against the library; a reference-built raw peer sends bursts of calls that are right or wrong in exactly one aspect; replies, errors, signals and handler invocations predicted from the generator\'s table under a harness-owned schedule',
-            'Exploration over programs and inputs: per run one generated crate of 8 interfaces (~30 methods of all shapes); per case 1-3 registrations on a 5-path tree and 1-5 calls (valid / wrong path / interface / member / arguments, with and without the no-reply flag, both endiannesses); handler ran iff everything matches, with exactly the arguments sent; exactly one reply (none with the flag) carrying the predicted value with the declared signature, the handler\'s error, or the named standard error; emitted signals as declared; nothing else written.',
+            'Exploration over programs and inputs: per run one generated crate of 8 interfaces (~30 methods of all shapes); per case 1-3 registrations on a 5-path tree and 1-5 calls (valid / wrong path / interface / member / arguments incl. the arguments wrapped into one structure, with and without the no-reply flag, both endiannesses) or a single call without interface field (delivered with the right result, or refused with a standard error); handler ran iff everything matches, with exactly the arguments sent; exactly one reply (none with the flag) carrying the predicted value with the declared signature, the handler\'s error, or the named standard error; emitted signals as declared; nothing else written.',
             'Trusted: generator table (Rust type -> signature / reference value), reference message builder / parser, harness scheduler. For an existing node without the interface either UnknownObject or UnknownInterface is accepted.', '7/C26'),
     'C27': ('program-generating PBT: introspection XML of generated interfaces on random trees checked by an own strict XML parser, by zbus_xml, against the generator\'s table and against wire behaviour',
             'Exploration over programs: per case 1-4 interfaces (+ optional ObjectManager) on a tree, one node introspected: well-formed per an independent XML 1.0 parser, read by zbus_xml, every node lists exactly its interfaces (standard ones verified by calling them) and child nodes, members declared as in the table (names, directions, types, access, annotations), and Get / method replies / emitted signals on the wire carry the declared types. Doc comments contain XML-special text and runs of dashes; a second introspection after a change of the tree must reflect it; a hand-written Interface impl takes part.',
